@@ -113,6 +113,12 @@ class Checker:
         f = getattr(self, "p_" + cls, None)
         if f is not None:
             self.count(cls)
+            # every invariant below relates real numbers: a reading that is neither None, a flag nor a real number (a complex root of a
+            # negative variance residue, a string) cannot satisfy it and would otherwise slip past the num() guards (round 9, S19-A)
+            for v in (reading.values() if isinstance(reading, dict) else [reading]):
+                if v is not None and not isinstance(v, (bool, int, float)):
+                    self.fail("not-a-real-number", ind, idx, f"{v!r} ({type(v).__name__}) where the invariants of {cls} need a real number")
+                    return
             msg = f(ind, reading, cv, idx, 3 * rho(r) + 1e-9)
             if msg:
                 self.fail(msg[0], ind, idx, msg[1])
